@@ -16,8 +16,13 @@ def evalT (fn : String) (args : List String) (impl : String) : Option Verdict :=
   if fn.startsWith "drv." then
     -- C07: whatever the IE, the driver's walk over it must not fault (in the event loop a fault ends the process)
     (Drv.eval fn args impl).map fun v =>
-      if impl.startsWith "panic" then
-        { v with propFails := v.propFails ++ [s!"C07 {fn}: the gtp5g driver faulted while translating this rule IE; in the event loop this takes the UPF down"] }
+      let v := if impl.startsWith "panic" then
+          { v with propFails := v.propFails ++ [s!"C07 {fn}: the gtp5g driver faulted while translating this rule IE; in the event loop this takes the UPF down"] }
+        else v
+      -- C16: the packed flow descriptions of a PDR's SDF filters, source and destination exchanged exactly for uplink PDRs
+      -- (whatever the order of the PDI's children), are part of what the PDR predicate reads back
+      if fn.startsWith "drv.pdr" && (args.any fun a => (a.splitOn "sdf").length > 1) && (v.propFails.any (·.startsWith "C02")) then
+        { v with propFails := v.propFails ++ [s!"C16 {fn}: a PDR with SDF filters reached the data plane differently from what its IEs say (flow description as packed, or the uplink exchange of source and destination)"] }
       else v
   else
   if fn.startsWith "cfg." then ConfigD.eval fn args impl else
